@@ -1,5 +1,6 @@
 import PGM.Proofs.Semantics
 import PGM.Proofs.VECorrect
+import PGM.Proofs.BPFactor
 import PGM.Model.Solvers
 /-! statements for C10 (structural zeros), `LogOf K` reading: exp-space value 0 is log-space `-∞` -/
 namespace PGM.Zeros
@@ -19,12 +20,257 @@ def Hits (z : ZeroSpec) (τ : Attr → Nat) : Prop := z.zc.map τ ∈ z.cells
 def zeroVec (d : Dom) (zs : List ZeroSpec) : CliqueVec (LogOf K) :=
   zs.map (fun z => (z.zc, Factor.active (⟨0⟩ : LogOf K) (d.project z.zc) z.cells))
 
+/-! ### helpers -/
+set_option linter.unusedSectionVars false
+set_option linter.unusedVariables false
+
+theorem project_WF (d : Dom) (as : List Attr) (h : as.Nodup) : (d.project as).WF := by
+  unfold Dom.WF; rw [Dom.attrs_project]; exact h
+
+theorem project_valid (d : Dom) (hd : d.WF) (as : List Attr) (hsub : ∀ a ∈ as, a ∈ d.attrs)
+    (τ : Attr → Nat) (hτ : d.Valid τ) : (d.project as).Valid τ := by
+  intro p hp
+  simp only [Dom.project, List.mem_map] at hp
+  obtain ⟨a, ha, rfl⟩ := hp
+  exact (Dom.valid_iff d hd τ).mp hτ a (hsub a ha)
+
+theorem active_dom (x : LogOf K) (D : Dom) (cs : List (List Nat)) : (Factor.active x D cs).dom = D := rfl
+
+theorem active_WF (x : LogOf K) (d : Dom) (zc : List Attr) (cs : List (List Nat)) (hnd : zc.Nodup) :
+    (Factor.active x (d.project zc) cs).WF := by
+  refine ⟨project_WF d zc hnd, rfl, ?_⟩
+  exact NdArr.ofFn_WF _ _
+
+theorem active_sem' (x : LogOf K) (d : Dom) (zc : List Attr) (cs : List (List Nat)) (τ : Attr → Nat)
+    (hd : d.WF) (hsub : ∀ a ∈ zc, a ∈ d.attrs) (hτ : d.Valid τ) :
+    (Factor.active x (d.project zc) cs).sem τ
+      = if cs.contains (zc.map τ) then x else Scalar.zero := by
+  show ((NdArr.ofFn (d.project zc).shape _).reshape (d.project zc).shape).get
+    ((d.project zc).attrs.map τ) = _
+  rw [Factor.get_reshape_of_shape_eq _ _ (NdArr.ofFn_shape _ _), Dom.attrs_project, NdArr.get_ofFn]
+  rw [Dom.shape_project]
+  exact NdArr.inRange_map _ _ _ (fun a ha => (Dom.valid_iff d hd τ).mp hτ a (hsub a ha))
+
+/-- exp-space indicator of a zero specification -/
+noncomputable def ind (z : ZeroSpec) (τ : Attr → Nat) : K :=
+  open Classical in if Hits z τ then (0 : K) else 1
+
+theorem active_ind (d : Dom) (z : ZeroSpec) (τ : Attr → Nat) (hd : d.WF)
+    (hsub : ∀ a ∈ z.zc, a ∈ d.attrs) (hτ : d.Valid τ) :
+    ((Factor.active (⟨0⟩ : LogOf K) (d.project z.zc) z.cells).sem τ).v = ind z τ := by
+  rw [active_sem' _ d z.zc z.cells τ hd hsub hτ]
+  unfold ind Hits
+  by_cases h : z.zc.map τ ∈ z.cells
+  · rw [if_pos (List.contains_iff_mem.mpr h), if_pos h]
+  · rw [if_neg (fun hc => h (List.contains_iff_mem.mp hc)), if_neg h]; rfl
+
+theorem zeros_WF (D : Dom) (hD : D.WF) : (Factor.zeros D : Factor (LogOf K)).WF := by
+  refine ⟨hD, rfl, ?_⟩
+  show (Array.replicate (size D.shape) (Scalar.zero : LogOf K)).size = size D.shape
+  simp
+
+theorem zeros_sem (D : Dom) (τ : Attr → Nat) : ((Factor.zeros D : Factor (LogOf K)).sem τ).v = 1 := by
+  show ((Array.replicate (size D.shape) (Scalar.zero : LogOf K)).getD
+    (ravel D.shape (D.attrs.map τ)) default).v = 1
+  rw [Array.getD_eq_getD_getElem?]
+  by_cases h : ravel D.shape (D.attrs.map τ) < size D.shape
+  · simp [h]; rfl
+  · simp [h]; rfl
+
+theorem joint_zerosV (d : Dom) (cliques : List Clique) (τ : Attr → Nat) :
+    joint (K := K) (CliqueVec.zerosV d cliques) τ = 1 := by
+  unfold joint CliqueVec.zerosV
+  rw [List.map_map]
+  apply List.prod_eq_one
+  intro x hx
+  obtain ⟨c, _, rfl⟩ := List.mem_map.mp hx
+  exact zeros_sem _ τ
+
+/-! ### `addV` -/
+
+theorem lookup_addV (theta h : CliqueVec (LogOf K)) (c : Clique) :
+    (CliqueVec.addV theta h).lookup c = (theta.lookup c).map (fun f => f.add (h.get c)) := by
+  induction theta with
+  | nil => rfl
+  | cons p ps ih =>
+    obtain ⟨k, v⟩ := p
+    show List.lookup c ((k, v.add (h.get k)) :: CliqueVec.addV ps h) = _
+    simp only [List.lookup_cons]
+    by_cases hk : c = k
+    · subst hk; simp
+    · have : (c == k) = false := by simpa using hk
+      rw [this]; exact ih
+
+theorem get_addV (theta h : CliqueVec (LogOf K)) (c : Clique) (hc : c ∈ theta.map Prod.fst) :
+    (CliqueVec.addV theta h).get c = (theta.get c).add (h.get c) := by
+  obtain ⟨f, hf, _⟩ := BP.lookup_isSome_of_mem theta c hc
+  unfold CliqueVec.get
+  rw [lookup_addV, hf]
+  rfl
+
+/-! ### products with one replaced entry -/
+
+theorem prod_replace {ι : Type} (key : ι → Clique) (l : List ι) (hnd : (l.map key).Nodup) (p : ι) (hp : p ∈ l)
+    (F G : ι → K) (x : K) (hFG : ∀ q ∈ l, key q ≠ key p → F q = G q) (hx : F p = G p * x) :
+    (l.map F).prod = (l.map G).prod * x := by
+  induction l with
+  | nil => simp at hp
+  | cons q qs ih =>
+    rw [List.map_cons, List.nodup_cons] at hnd
+    obtain ⟨hq, hqs⟩ := hnd
+    simp only [List.map_cons, List.prod_cons]
+    by_cases hpq : key q = key p
+    · have hpq' : p = q := by
+        rcases List.mem_cons.mp hp with h | h
+        · exact h
+        · exact absurd (hpq ▸ List.mem_map_of_mem h) hq
+      subst hpq'
+      have : qs.map F = qs.map G := by
+        apply List.map_congr_left
+        intro r hr
+        apply hFG r (List.mem_cons_of_mem _ hr)
+        intro h
+        exact hq (h ▸ List.mem_map_of_mem hr)
+      rw [this, hx]; ring
+    · have hp' : p ∈ qs := by
+        rcases List.mem_cons.mp hp with h | h
+        · exact absurd (h ▸ rfl) hpq
+        · exact h
+      rw [hFG q (by simp) hpq, ih hqs hp' (fun r hr => hFG r (List.mem_cons_of_mem _ hr)), mul_assoc]
+
+/-! ### `combine` as a fold of single installations -/
+
+/-- one iteration of `CliqueVector.combine` -/
+def step (acc : CliqueVec (LogOf K)) (o : Clique × Factor (LogOf K)) : CliqueVec (LogOf K) :=
+  match acc.find? (fun p => JT.subset o.1 p.1) with
+  | some p => acc.set p.1 (p.2.iadd o.2)
+  | none => acc
+
+theorem combine_eq (self other : CliqueVec (LogOf K)) :
+    CliqueVec.combine self other = other.foldl step self := by
+  unfold CliqueVec.combine
+  congr 1
+  funext acc o
+  unfold step
+  cases acc.find? (fun p => JT.subset o.1 p.1) <;> rfl
+
+/-- the fold invariant: keys are the model cliques, each table is well-formed over its clique -/
+def VecOK (d : Dom) (cliques : List Clique) (b : CliqueVec (LogOf K)) : Prop :=
+  b.map Prod.fst = cliques ∧ ∀ p ∈ b, p.2.WF ∧ p.2.dom = d.project p.1
+
+theorem step_spec (d : Dom) (cliques : List Clique) (acc : CliqueVec (LogOf K)) (z : ZeroSpec)
+    (τ : Attr → Nat) (hd : d.WF) (hcl : ∀ c ∈ cliques, c.Nodup ∧ ∀ a ∈ c, a ∈ d.attrs)
+    (hcn : cliques.Nodup) (hacc : VecOK d cliques acc)
+    (hz : z.zc.Nodup ∧ (∀ a ∈ z.zc, a ∈ d.attrs) ∧ ∃ c ∈ cliques, JT.subset z.zc c = true)
+    (hτ : d.Valid τ) :
+    VecOK d cliques (step acc (z.zc, Factor.active (⟨0⟩ : LogOf K) (d.project z.zc) z.cells)) ∧
+    joint (step acc (z.zc, Factor.active (⟨0⟩ : LogOf K) (d.project z.zc) z.cells)) τ
+      = joint acc τ * ind z τ := by
+  obtain ⟨hznd, hzsub, c, hc, hsubc⟩ := hz
+  obtain ⟨hkeys, hent⟩ := hacc
+  unfold step
+  cases hfind : acc.find? (fun p => JT.subset z.zc p.1) with
+  | none =>
+    exfalso
+    rw [← hkeys] at hc
+    obtain ⟨q, hq, rfl⟩ := List.mem_map.mp hc
+    have := List.find?_eq_none.mp hfind q hq
+    exact this hsubc
+  | some p =>
+    have hp : p ∈ acc := List.mem_of_find?_eq_some hfind
+    have hps : JT.subset z.zc p.1 = true :=
+      List.find?_some (p := fun q : Clique × Factor (LogOf K) => JT.subset z.zc q.1) hfind
+    have hkey : p.1 ∈ acc.map Prod.fst := List.mem_map_of_mem hp
+    obtain ⟨hpw, hpd⟩ := hent p hp
+    obtain ⟨hpnd, hpsub⟩ := hcl p.1 (hkeys ▸ hkey)
+    have hactw := active_WF (⟨0⟩ : LogOf K) d z.zc z.cells hznd
+    have hcont : p.2.dom.contains (Factor.active (⟨0⟩ : LogOf K) (d.project z.zc) z.cells).dom = true := by
+      rw [active_dom, hpd, Dom.contains_iff, Dom.attrs_project, Dom.attrs_project]
+      exact (JT.subset_iff _ _).mp hps
+    have hagr : (Factor.active (⟨0⟩ : LogOf K) (d.project z.zc) z.cells).dom.Agrees p.2.dom := by
+      rw [active_dom, hpd]
+      intro q hq
+      simp only [Dom.project, List.mem_map] at hq
+      obtain ⟨a, ha, rfl⟩ := hq
+      exact Dom.cfg_project d p.1 a ((JT.subset_iff _ _).mp hps a ha)
+    have hval : p.2.dom.Valid τ := by
+      rw [hpd]; exact project_valid d hd p.1 hpsub τ hτ
+    have hfw := BP.iop_WF Scalar.add p.2 _ hpw hactw hcont hagr
+    have hfsem : (((p.2.iadd (Factor.active (⟨0⟩ : LogOf K) (d.project z.zc) z.cells)).sem τ).v)
+        = (p.2.sem τ).v * ind z τ := by
+      show ((Factor.iop Scalar.add p.2 _).sem τ).v = _
+      rw [Factor.sem_iop Scalar.add p.2 _ τ hpw hactw hcont hagr hval, BP.log_add_v,
+        active_ind d z τ hd hzsub hτ]
+    show VecOK d cliques (acc.set p.1 _) ∧ joint (acc.set p.1 _) τ = _
+    unfold CliqueVec.set
+    rw [if_pos ((BP.any_key_iff acc p.1).mpr hkey)]
+    refine ⟨⟨?_, ?_⟩, ?_⟩
+    · rw [BP.keys_replace, hkeys]
+    · intro r hr
+      obtain ⟨q, hq, rfl⟩ := List.mem_map.mp hr
+      by_cases hqp : q.1 = p.1
+      · simp only [hqp, beq_self_eq_true, if_true]
+        exact ⟨hfw, hpd⟩
+      · have : (q.1 == p.1) = false := by simpa using hqp
+        simp only [this]
+        exact hent q hq
+    · unfold joint
+      rw [List.map_map]
+      apply prod_replace Prod.fst acc (hkeys ▸ hcn) p hp
+      · intro q hq hne
+        have : (q.1 == p.1) = false := by simpa using hne
+        simp [Function.comp, this]
+      · simp only [Function.comp, beq_self_eq_true, if_true]
+        exact hfsem
+
+theorem foldl_step_spec (d : Dom) (cliques : List Clique) (zs : List ZeroSpec) (acc : CliqueVec (LogOf K))
+    (τ : Attr → Nat) (hd : d.WF) (hcl : ∀ c ∈ cliques, c.Nodup ∧ ∀ a ∈ c, a ∈ d.attrs)
+    (hcn : cliques.Nodup) (hacc : VecOK d cliques acc)
+    (hz : ∀ z ∈ zs, z.zc.Nodup ∧ (∀ a ∈ z.zc, a ∈ d.attrs) ∧ ∃ c ∈ cliques, JT.subset z.zc c = true)
+    (hτ : d.Valid τ) :
+    VecOK d cliques ((zeroVec d zs).foldl step acc) ∧
+    joint ((zeroVec d zs).foldl step acc) τ = joint acc τ * (zs.map (fun z => ind (K := K) z τ)).prod := by
+  induction zs generalizing acc with
+  | nil => exact ⟨hacc, by simp [zeroVec]⟩
+  | cons z zs ih =>
+    obtain ⟨h1, h2⟩ := step_spec d cliques acc z τ hd hcl hcn hacc (hz z (by simp)) hτ
+    obtain ⟨h3, h4⟩ := ih _ h1 (fun z' hz' => hz z' (by simp [hz']))
+    refine ⟨h3, ?_⟩
+    show joint ((zeroVec d zs).foldl step (step acc _)) τ = _
+    rw [h4, h2, List.map_cons, List.prod_cons, mul_assoc]
+
+theorem prod_ind (zs : List ZeroSpec) (τ : Attr → Nat) :
+    (zs.map (fun z => ind (K := K) z τ)).prod
+      = (open Classical in if ∃ z ∈ zs, Hits z τ then (0 : K) else 1) := by
+  classical
+  induction zs with
+  | nil => simp
+  | cons z zs ih =>
+    rw [List.map_cons, List.prod_cons, ih]
+    unfold ind
+    by_cases h : Hits z τ
+    · simp [h]
+    · simp [h]
+
+theorem vecOK_zerosV (d : Dom) (cliques : List Clique)
+    (hcl : ∀ c ∈ cliques, c.Nodup ∧ ∀ a ∈ c, a ∈ d.attrs) :
+    VecOK (K := K) d cliques (CliqueVec.zerosV d cliques) := by
+  refine ⟨?_, ?_⟩
+  · unfold CliqueVec.zerosV
+    rw [List.map_map]
+    exact List.map_id' _ |>.symm ▸ (by simp)
+  · intro p hp
+    obtain ⟨c, hc, rfl⟩ := List.mem_map.mp hp
+    exact ⟨zeros_WF _ (project_WF d c (hcl c hc).1), rfl⟩
+
+/-! ### the C10 statements -/
+
 /-- the indicator factor: exp-space 0 on declared cells, 1 elsewhere -/
 theorem active_sem (d : Dom) (z : ZeroSpec) (τ : Attr → Nat) (hd : d.WF) (hnd : z.zc.Nodup)
     (hsub : ∀ a ∈ z.zc, a ∈ d.attrs) (hτ : d.Valid τ) :
     ((Factor.active (⟨0⟩ : LogOf K) (d.project z.zc) z.cells).sem τ).v
-      = (open Classical in if Hits z τ then (0 : K) else 1) := by
-  sorry
+      = (open Classical in if Hits z τ then (0 : K) else 1) :=
+  active_ind d z τ hd hsub hτ
 
 /-- **zeros are installed** (`_setup`): after combining the zero potentials with the structural
 zeros — every zero clique being inside some model clique — the product of the potentials vanishes at
@@ -35,7 +281,9 @@ theorem zeros_installed (d : Dom) (cliques : List Clique) (zs : List ZeroSpec) (
     (hτ : d.Valid τ) :
     joint (K := K) (CliqueVec.combine (CliqueVec.zerosV d cliques) (zeroVec d zs)) τ
       = (open Classical in if ∃ z ∈ zs, Hits z τ then (0 : K) else 1) := by
-  sorry
+  rw [combine_eq,
+    (foldl_step_spec d cliques zs _ τ hd hcl hcn (vecOK_zerosV d cliques hcl) hz hτ).2,
+    joint_zerosV, one_mul, prod_ind]
 
 /-- **additive parameter updates preserve zeros** (mirror descent `θ − α·dL`, interior gradient
 `θ − (a/c/total)·g`, warm-start `combine`): adding *any* vector to the parameters multiplies the
@@ -45,7 +293,11 @@ theorem update_preserves_zeros (d : Dom) (theta h : CliqueVec (LogOf K)) (c : Cl
     (hh : (h.get c).WF ∧ (h.get c).dom.Agrees d ∧ ∀ a ∈ (h.get c).dom.attrs, a ∈ (theta.get c).dom.attrs)
     (hc : c ∈ theta.map Prod.fst) (hτ : d.Valid τ) :
     (((CliqueVec.addV theta h).get c).sem τ).v = ((theta.get c).sem τ).v * ((h.get c).sem τ).v := by
-  sorry
+  have h1 : FactorOK d (theta.get c) := hθ
+  have h2 : FactorOK d (h.get c) := ⟨hh.1, hh.2.1, fun a ha => hθ.2.2 a (hh.2.2 a ha)⟩
+  rw [get_addV theta h c hc]
+  show ((Factor.binop Scalar.add (theta.get c) (h.get c)).sem τ).v = _
+  rw [sem_binop_ok Scalar.add hd h1 h2 hτ, BP.log_add_v]
 
 /-- **dual averaging re-installs the zeros**: whatever vector `b` the averaged gradient produces,
 `combine b zeros` vanishes (exp-space) at the declared cells -/
@@ -55,7 +307,8 @@ theorem combine_reinstalls_zeros (d : Dom) (cliques : List Clique) (b : CliqueVe
     (hz : ∀ z ∈ zs, z.zc.Nodup ∧ (∀ a ∈ z.zc, a ∈ d.attrs) ∧ ∃ c ∈ cliques, JT.subset z.zc c = true)
     (hτ : d.Valid τ) (hit : ∃ z ∈ zs, Hits z τ) :
     joint (CliqueVec.combine b (zeroVec d zs)) τ = 0 := by
-  sorry
+  rw [combine_eq, (foldl_step_spec d cliques zs b τ hd hcl hcn ⟨hkeys, hb⟩ hz hτ).2, prod_ind,
+    if_pos hit, mul_zero]
 
 /-- **zero in every answer**: if the joint vanishes at every assignment extending the declared cell
 `(zc, cell)`, then the marginal onto any attribute tuple containing `zc` vanishes at every
@@ -65,6 +318,19 @@ theorem zero_in_all_answers (d : Dom) (pots : CliqueVec (LogOf K)) (z : ZeroSpec
     (σ : Attr → Nat) (hd : d.WF) (has : as.Nodup) (hsub : ∀ a ∈ as, a ∈ d.attrs) (hzc : ∀ a ∈ z.zc, a ∈ as)
     (hzero : ∀ τ, Hits z τ → joint pots τ = 0) (hσ : Hits z σ) :
     marginal d pots as σ = 0 := by
-  sorry
+  unfold marginal
+  rw [sumOver_congr d (d.invert as) σ (joint pots) (fun _ => 0), sumOver_zero]
+  intro v _
+  apply hzero
+  unfold Hits at hσ ⊢
+  have : z.zc.map (Dom.override σ (d.invert as) v) = z.zc.map σ := by
+    apply List.map_congr_left
+    intro a ha
+    apply override_of_not_mem
+    intro hmem
+    have := (List.mem_filter.mp hmem).2
+    simp [hzc a ha] at this
+  rw [this]
+  exact hσ
 
 end PGM.Zeros
